@@ -1190,6 +1190,7 @@ RETCODE adfFileCreateNextBlock ( struct AdfFile * const file )
         struct bOFSDataBlock * const data = file->currentData;
         if (file->pos>=blockSize) {
             data->nextData = nSect;
+            data->dataSize = blockSize;   /* the previous block is full now */
             adfWriteDataBlock(file->volume, file->curDataPtr, file->currentData);
 /*printf ("writedata=%d\n",file->curDataPtr);*/
         }
